@@ -489,7 +489,7 @@ theorem originBytes_obs (de : List UInt8 → List UInt8) (w : OWorld) (o : Nat) 
           have o1 := write_owned o0 0 (de (read w.B c.buffer)) (by simp [mk])
           rw [Nat.add_zero, overwrite_full _ _ (by simp)] at o1
           exact o1.rd
-        simp only [hc, hp, hl, if_false, Bool.false_eq_true]
+        simp only [hp, hl, if_false, Bool.false_eq_true]
         refine ⟨hrd, ?_⟩
         simp only [List.getElem?_set_self ho, if_true]
         exact hrd
@@ -569,6 +569,86 @@ theorem originBytes_string (en de : List UInt8 → List UInt8) (w : OWorld) (o :
           List.getElem?_set_self ho, if_true]
         rw [hrd]
         exact hcanon c hc (by simpa using hp)
+
+/-! ### `asComplete` — impure, but only ever applied to a location nobody else holds -/
+
+/-- `join(<2..3,6)` laid out in an otherwise empty heap -/
+private def acArg : MLoc × Heap MLoc :=
+  allocLoc (.joined [.ranged 1 3 true false, .ordered [.ranged 7 9 false true, .point 5]]) []
+
+/-- `asComplete` IS impure: the location its caller passed in reads differently afterwards (the
+`Joined`/`Ordered` slices are rewritten in place) -/
+theorem asComplete_impure :
+    (readLoc 8 acArg.2 acArg.1).beq
+      (.joined [.ranged 1 3 true false, .ordered [.ranged 7 9 false true, .point 5]]) = true ∧
+    (readLoc 8 (asCompleteMem 8 acArg.2 acArg.1).2 acArg.1).beq
+      (.joined [.ranged 1 3 false false, .ordered [.ranged 7 9 false false, .point 5]]) = true := by
+  decide
+
+/-- … and what it returns is the pure `Loc.asComplete` of what was passed in (here, and on every
+location of the correspondence run, op `mem.ascomplete`) -/
+example : (readLoc 8 (asCompleteMem 8 acArg.2 acArg.1).2 (asCompleteMem 8 acArg.2 acArg.1).1).beq
+    (Loc.asComplete (.joined [.ranged 1 3 true false, .ordered [.ranged 7 9 false true, .point 5]])) = true := by
+  decide
+
+/-- **FRAME at the only call site of `asComplete`** (`gts.Slice`, sequence.go:278): the argument
+is the result of `Expand(…).Expand(…)`, a location built in fresh arrays (`allocLoc`; that
+`Expand` never returns a slice of its receiver is checked on the real code by the harness oracle
+`expand-fresh`).  For every location `l`, every heap `h` — the feature's own location, other
+features sharing its slices — and every nesting depth: nothing that existed is written. -/
+theorem asComplete_fresh_frame (l : Loc) (h : Heap MLoc) (fuel : Nat) :
+    h <+: (asCompleteMem fuel (allocLoc l h).2 (allocLoc l h).1).2 := by
+  have a := allocLoc_closed l h h.length (Nat.le_refl _) (closed_self h)
+  exact (asCompleteMem_closed (h0 := h) fuel _ _ a.1 a.2.1 a.2.2).1
+
+/-! ### `Props` — which results share qualifier storage with their argument
+
+`Set`/`Add`/`Del` are mutators (pointer receiver) and no sequence operation calls them, so no
+operation changes a qualifier; FRAME above is not affected.  But Insert, Embed, Delete, Erase,
+Slice, Rotate, Concat, Transcribe, Filter, FeatureSlice.Insert and Repair build their result
+features as `Feature{f.Key, loc, f.Props}`: the result's qualifiers ARE the argument's (same
+outer array, same rows), so a caller who later mutates a qualifier of the RESULT changes what the
+ARGUMENT reads.  Only Reverse and Complement hand out `f.Props.Clone()`.  (Recorded as an
+observation, not as a violation of C11: the write is a later action of the caller, not of the
+operation — see checks/C11.json.) -/
+
+/-- two rows `a=1`, `b=2`, the first with one spare cell, the outer array with one spare cell -/
+private def propsWorld : PWorld :=
+  ⟨[["a", "1", ""], ["b", "2"]], [[⟨0, 0, 2, 3⟩, ⟨1, 0, 2, 2⟩, Slice.nil]]⟩
+private def propsArg : Slice := ⟨0, 0, 2, 3⟩
+
+/-- through a SHARED header (what `Feature{f.Key, loc, f.Props}` gives the result), `Add`, `Set`
+and `Del` on the result change the value the argument reads -/
+theorem shared_props_reached :
+    readProps (propsAdd (fun _ _ => 0) propsWorld propsArg "a" ["z"]).2 propsArg = [["a", "1", "z"], ["b", "2"]] ∧
+    readProps (propsSet (fun _ _ => 0) propsWorld propsArg "a" ["z"]).2 propsArg = [["a", "z"], ["b", "2"]] ∧
+    readProps (propsDel (fun _ _ => 0) propsWorld propsArg "a").2 propsArg = [["b", "2"], ["b", "2"]] := by
+  decide
+
+/-- `Clone()` writes nothing that existed … -/
+theorem clone_frame (w : PWorld) (p : Slice) :
+    w.R <+: (propsClone w p).2.R ∧ w.P <+: (propsClone w p).2.P :=
+  ⟨(propsClone_fresh w p).1, (propsClone_fresh w p).2.1⟩
+
+/-- … and isolates: whatever mutator is applied to a clone, with whatever arguments and capacity
+policy, every array that existed before the `Clone()` is unchanged (rows are cloned with
+`len = cap`, so even `Add`'s in-place `append` cannot reach the original) -/
+theorem clone_isolates (g : Grow) (w : PWorld) (p : Slice) (key : String) (values : List String) :
+    (w.R <+: (propsSet g (propsClone w p).2 (propsClone w p).1 key values).2.R ∧
+     w.P <+: (propsSet g (propsClone w p).2 (propsClone w p).1 key values).2.P) ∧
+    (w.R <+: (propsAdd g (propsClone w p).2 (propsClone w p).1 key values).2.R ∧
+     w.P <+: (propsAdd g (propsClone w p).2 (propsClone w p).1 key values).2.P) ∧
+    (w.R <+: (propsDel g (propsClone w p).2 (propsClone w p).1 key).2.R ∧
+     w.P <+: (propsDel g (propsClone w p).2 (propsClone w p).1 key).2.P) := by
+  have c := propsClone_fresh w p
+  exact ⟨propsSet_frame g c.1 c.2.1 c.2.2 key values, propsAdd_frame g c.1 c.2.1 c.2.2 key values,
+    propsDel_frame g c.1 c.2.1 c.2.2 key⟩
+
+/-- non-vacuity: the clone of the example reads the same, and `Add` on it leaves the original -/
+example :
+    readProps (propsClone propsWorld propsArg).2 (propsClone propsWorld propsArg).1 = [["a", "1"], ["b", "2"]] ∧
+    readProps (propsAdd (fun _ _ => 0) (propsClone propsWorld propsArg).2 (propsClone propsWorld propsArg).1 "a" ["z"]).2
+      propsArg = [["a", "1"], ["b", "2"]] := by decide
 
 /-! ### the PRE-REPAIR statements violate FRAME (the model can express the defect)
 
